@@ -179,6 +179,28 @@ func runC12(c *Ctx) {
 					c.count("encode_fails_at_signing")
 				}
 			}
+			// scopes put together by hand rather than with NewUserScope, filed directly in the key set: one that names no key
+			// of its own, one whose kind was left at its zero value (Encode refuses that one). Whatever Encode does with them,
+			// the scope objects are the caller's and stay as they were
+			handBuilt := ""
+			if ac, ok := cl.(*jwt.AccountClaims); ok && i >= perKindCoq && i%4 != 0 {
+				if ac.SigningKeys == nil {
+					ac.SigningKeys = jwt.SigningKeys{}
+				}
+				k := newSigner("account").pub
+				switch i % 4 {
+				case 1:
+					ac.SigningKeys[k] = &jwt.UserScope{Kind: jwt.UserScopeType, Role: "filed without a key of its own"}
+					handBuilt = "scope with an empty key"
+				case 2:
+					ac.SigningKeys[k] = &jwt.UserScope{Key: k, Role: "kind left at zero"}
+					handBuilt = "scope whose kind is zero"
+				case 3:
+					ac.SigningKeys[k] = &jwt.UserScope{Role: "neither kind nor key"}
+					handBuilt = "scope with neither kind nor key"
+				}
+				c.count("hand_built_" + handBuilt)
+			}
 			before := blankStamps(cl)
 			vterm := ""
 			if i < perKindCoq {
@@ -194,8 +216,15 @@ func runC12(c *Ctx) {
 				if tok != "" {
 					c.violation("C12: a failed Encode returned a non-empty token", inp)
 				}
+				if handBuilt != "" && blankStamps(cl) != before {
+					inp["diff"], inp["hand_built"] = firstDiff(before, blankStamps(cl)), handBuilt
+					c.violation("C12: an Encode that failed changed content other than issuer, issue time, id, kind, version and the order of imports/exports", inp)
+				}
 				c.count("encode_error")
 				continue
+			}
+			if handBuilt != "" {
+				inp["hand_built"] = handBuilt
 			}
 			cd := cl.Claims()
 			typ, ver, has := typeAndVersion(cl)
